@@ -353,9 +353,9 @@ def run_config(res, driver, harness, cfgname, cpx, meta, xof, utl, versions, sta
             if ms:
                 idx = int(ms.group(1))
             coq = ""
-            if cls == "siv80pq" and versions.get("siv80pq") == "AsFound":
+            if cls == "siv80pq" and versions.get("siv80pq") == "CodeAsFound":
                 coq = "\n  Coq: C17_aead_siv80pq_current / C17_aead_siv80pq_refuted prove the negation of the statement for the model of this code"
-            if CLASSES[cls][1] == "isap" and versions.get("isap_setkey0") == "AsFound":
+            if CLASSES[cls][1] == "isap" and versions.get("isap_setkey0") == "CodeAsFound":
                 coq = "\n  Coq: C17_aead_isap_current / C17_aead_isap_refuted prove the negation of the statement for the model of this code"
             res.violation(sig,
                           "ascon::%s departs from its documentation at call %d (%s) of: %s\n  %s: the object's %s differs from what the direct C call "
@@ -381,7 +381,7 @@ def run_config(res, driver, harness, cfgname, cpx, meta, xof, utl, versions, sta
                 k += 1
             hint = ""
             if cls == "siv80pq" or CLASSES[cls][1] == "isap":
-                hint = ("\n  if /repo was fixed, set the flag in coq/Model/Cppm.v: `Definition %s : code_version := Fixed.`" %
+                hint = ("\n  if /repo was fixed, set the flag in coq/Model/Cppm.v: `Definition %s : cpp_code_version := CodeFixed.`" %
                         ("siv80pq_code" if cls == "siv80pq" else "isap_setkey0_code"))
             res.violation("model-vs-code:%s:%s" % (cls, opkind(line, k)),
                           "the model of ascon::%s (coq/Model/Cppm.v, flags %s) and the real class disagree at call %d of: %s\n  model: %s\n  impl:  %s%s" %
